@@ -1711,7 +1711,14 @@ class LeCreditBasedChannel(utils.EventEmitter):
         self.send_control_frame(request)
 
         # Wait for the connection to succeed or fail
-        return await connection_result
+        try:
+            return await connection_result
+        finally:
+            # No-op once the response has been received; drops the request when
+            # the wait is abandoned (the awaiting task was cancelled).
+            self.manager.le_coc_requests.pop(request_key, None)
+            if self.connection_result is connection_result:
+                self.connection_result = None
 
     async def disconnect(self) -> None:
         # Check that we're connected
@@ -2973,6 +2980,9 @@ class ChannelManager:
             logger.exception('connection failed')
             del connection_channels[source_cid]
             raise
+        except asyncio.CancelledError:
+            connection_channels.pop(source_cid, None)
+            raise
 
         return channel
 
@@ -3077,6 +3087,11 @@ class ChannelManager:
             logger.exception('connection failed')
             for cid in source_cids:
                 del connection_channels[cid]
+            raise
+        except asyncio.CancelledError:
+            for cid in source_cids:
+                connection_channels.pop(cid, None)
+            pending_connections.pop(identifier, None)
             raise
 
         return channels
